@@ -87,6 +87,15 @@ Definition bin_ty (op : binop) (a b : ty) : option ty :=
   | BEq | BNotEq => if ty_compat a b then Some TBool else None
   end.
 
+(* operators on the untyped [] whose result is the empty array: the parser annotates them with the
+   type the context infers ([]any, or the declared array type), or leaves [] *)
+Definition arrish (t : ty) : bool := match t with TArr _ | TEmptyArr => true | _ => false end.
+Definition bin_empty (op : binop) (a b t : ty) : bool :=
+  match op, a, b with
+  | BPlus, TEmptyArr, TEmptyArr | BAsterisk, TEmptyArr, TNum => arrish t
+  | _, _, _ => false
+  end.
+
 (* ---------- function signatures ---------- *)
 Record fsig := mk_sig { fs_params : list ty; fs_var : option ty; fs_ret : ty }.
 
@@ -213,6 +222,9 @@ Definition binder_ok (n : str) : bool :=
 Definition opt_ty_eqb (o : option ty) (t : ty) : bool :=
   match o with Some u => ty_eqb u t | None => false end.
 
+Fixpoint keys_nodup (l : list str) : bool :=
+  match l with [] => true | x :: r => negb (mem_str x r) && keys_nodup r end.
+
 (* ---------- expressions ---------- *)
 Fixpoint ety (F : list funcdef) (G : tyenv) (e : expr) {struct e} : option ty :=
   let etys := fix etys (es : list expr) : option (list ty) :=
@@ -256,7 +268,8 @@ Fixpoint ety (F : list funcdef) (G : tyenv) (e : expr) {struct e} : option ty :=
               | _ => None end
       | _ :: _ =>
           match t, etyp ps with
-          | TMap u, Some ts => if forallb (ty_eqb u) ts && ty_ann t then Some t else None
+          | TMap u, Some ts =>
+              if forallb (ty_eqb u) ts && ty_ann t && keys_nodup (map fst ps) then Some t else None
           | _, _ => None
           end
       end
@@ -274,7 +287,7 @@ Fixpoint ety (F : list funcdef) (G : tyenv) (e : expr) {struct e} : option ty :=
       end
   | EBin op t l r =>
       match ety F G l, ety F G r with
-      | Some a, Some b => if opt_ty_eqb (bin_ty op a b) t && ty_ann t then Some t else None
+      | Some a, Some b => if (opt_ty_eqb (bin_ty op a b) t || bin_empty op a b t) && ty_ann t then Some t else None
       | _, _ => None
       end
   | EIndex t l i =>
@@ -288,7 +301,7 @@ Fixpoint ety (F : list funcdef) (G : tyenv) (e : expr) {struct e} : option ty :=
       match ety F G l with
       | Some a =>
           match a with
-          | TArr _ | TStr => if ty_eqb a t && etyo lo && etyo hi then Some t else None
+          | TArr _ | TEmptyArr | TStr => if ty_eqb a t && etyo lo && etyo hi then Some t else None
           | _ => None
           end
       | None => None
@@ -312,6 +325,11 @@ Section Etys.
     match es with
     | [] => Some []
     | x :: r => match ety F G x, etys r with Some t, Some ts => Some (t :: ts) | _, _ => None end
+    end.
+  Fixpoint etyps (ps : list (str * expr)) : option (list ty) :=
+    match ps with
+    | [] => Some []
+    | (_, x) :: r => match ety F G x, etyps r with Some t, Some ts => Some (t :: ts) | _, _ => None end
     end.
 End Etys.
 
@@ -487,39 +505,53 @@ Definition wt_program (P : program) : bool :=
   end.
 
 (* ---------- Stage-1 fragment (what SemSound.v proves sound) ---------- *)
-(* types without maps, and with `any` only at the top: num, string, bool,
-   nested arrays of those, the untyped [] and any *)
+(* types with `any` only at the top: num, string, bool, nested arrays and maps of those,
+   the untyped [] and {}, and any *)
 Fixpoint ty_s1in (t : ty) : bool :=
   match t with
-  | TNum | TStr | TBool | TEmptyArr => true
-  | TArr u => ty_s1in u
+  | TNum | TStr | TBool | TEmptyArr | TEmptyMap => true
+  | TArr u | TMap u => ty_s1in u
   | _ => false
   end.
 Definition ty_s1 (t : ty) : bool := match t with TAny => true | _ => ty_s1in t end.
 
 Definition s1_builtins : list str := Eval compute in map s_
-  ["print"; "sprint"; "read"; "cls"; "sleep"; "len"; "typeof"; "str2num"; "str2bool"; "exit"; "panic";
+  ["print"; "sprint"; "read"; "cls"; "sleep"; "len"; "has"; "del"; "typeof"; "str2num"; "str2bool"; "exit"; "panic";
    "join"; "startswith"; "endswith"; "min"; "max"; "abs"; "sqrt";
    "circle"; "width"; "move"; "line"; "rect"; "color"; "colour"; "stroke"; "fill"; "linecap"; "text"]%string.
+
+(* the type component of the fragment predicate: in the strict fragment `any` never occurs inside a
+   composite type *)
+Definition fr_tyin (strict : bool) (t : ty) : bool := if strict then ty_s1in t else true.
+Definition fr_ty (strict : bool) (t : ty) : bool := if strict then ty_s1 t else true.
+
+(* callable inside the fragment: the modelled built-ins, test, and the user's functions *)
+Definition call_frag (name : str) : bool :=
+  mem_str name s1_builtins || negb (is_some (builtin_sig name)) || str_eqb name n_test.
+
+Section Frag.
+Context (strict : bool).
 
 Fixpoint s1_expr (e : expr) {struct e} : bool :=
   let s1_exprs := fix go (es : list expr) : bool :=
     match es with [] => true | x :: r => s1_expr x && go r end in
   let s1_opt (o : option expr) : bool := match o with Some x => s1_expr x | None => true end in
+  let s1_pairs := fix go (ps : list (str * expr)) : bool :=
+    match ps with [] => true | (_, x) :: r => s1_expr x && go r end in
   match e with
   | ENum _ | EStr _ | EBool _ => true
-  | EVar _ t => ty_s1 t
-  | EAny a t => ty_s1in t && s1_expr a
-  | EArr t es => ty_s1in t && s1_exprs es
-  | EMap _ _ => false
-  | ECall name t args => mem_str name s1_builtins && s1_exprs args
+  | EVar _ t => fr_ty strict t
+  | EAny a t => fr_tyin strict t && s1_expr a
+  | EArr t es => fr_tyin strict t && s1_exprs es
+  | EMap t ps => fr_tyin strict t && s1_pairs ps
+  | ECall name t args => call_frag name && s1_exprs args
   | EUn _ a => s1_expr a
-  | EBin _ t l r => ty_s1in t && s1_expr l && s1_expr r
-  | EIndex t l i => ty_s1in t && s1_expr l && s1_expr i
-  | ESlice t l lo hi => ty_s1in t && s1_expr l && s1_opt lo && s1_opt hi
-  | EDot _ _ _ => false
+  | EBin _ t l r => fr_tyin strict t && s1_expr l && s1_expr r
+  | EIndex t l i => fr_tyin strict t && s1_expr l && s1_expr i
+  | ESlice t l lo hi => fr_tyin strict t && s1_expr l && s1_opt lo && s1_opt hi
+  | EDot t l _ => fr_tyin strict t && s1_expr l
   | EGroup a => s1_expr a
-  | EAssert t a => ty_s1in t && s1_expr a
+  | EAssert t a => fr_tyin strict t && s1_expr a
   end.
 
 Fixpoint s1_exprs (es : list expr) : bool :=
@@ -527,14 +559,17 @@ Fixpoint s1_exprs (es : list expr) : bool :=
 
 Definition s1_opt (o : option expr) : bool := match o with Some x => s1_expr x | None => true end.
 
+Fixpoint s1_pairs (ps : list (str * expr)) : bool :=
+  match ps with [] => true | (_, x) :: r => s1_expr x && s1_pairs r end.
+
 Fixpoint s1_stmt (s : stmt) {struct s} : bool :=
   let s1_stmts := fix go (l : list stmt) : bool :=
     match l with [] => true | x :: r => s1_stmt x && go r end in
   match s with
-  | SDecl _ t e => ty_s1 t && s1_expr e
+  | SDecl _ t e => fr_ty strict t && s1_expr e
   | SAssign target e => s1_expr target && s1_expr e
-  | SCallStmt name args => mem_str name s1_builtins && s1_exprs args
-  | SReturn _ => false
+  | SCallStmt name args => call_frag name && s1_exprs args
+  | SReturn o => s1_opt o
   | SBreak => true
   | SIf conds els =>
       (fix go (cs : list (expr * list stmt)) : bool :=
@@ -542,7 +577,7 @@ Fixpoint s1_stmt (s : stmt) {struct s} : bool :=
       && match els with Some b => s1_stmts b | None => true end
   | SWhile c body => s1_expr c && s1_stmts body
   | SFor var vt r body =>
-      match var with Some _ => ty_s1 vt | None => true end
+      match var with Some _ => fr_ty strict vt | None => true end
       && match r with
          | RStep a b c => s1_opt a && s1_expr b && s1_opt c
          | RExpr y => s1_expr y
@@ -554,7 +589,20 @@ Fixpoint s1_stmt (s : stmt) {struct s} : bool :=
 Fixpoint s1_stmts (l : list stmt) : bool :=
   match l with [] => true | x :: r => s1_stmt x && s1_stmts r end.
 
-Definition s1_program (P : program) : bool := s1_stmts (p_stmts P).
+(* a function of the fragment: its body, and (strict) a variadic parameter whose array type is in it *)
+Definition s1_func (fd : funcdef) : bool :=
+  s1_stmts (fn_body fd) && match fn_variadic fd with Some (_, t) => fr_tyin strict t | None => true end.
+
+End Frag.
+
+(* the two proved fragments: [s1_program] (any never inside a composite: no run goes wrong at all) and
+   the wider [s2_program] (no run goes wrong except by exhausting the host stack on a cyclic value) *)
+Definition s1_program (P : program) : bool :=
+  s1_stmts true (p_stmts P) && forallb (s1_func true) (p_funcs P)
+  && forallb (fun h => s1_stmts true (h_body h)) (p_handlers P).
+Definition s2_program (P : program) : bool :=
+  s1_stmts false (p_stmts P) && forallb (s1_func false) (p_funcs P)
+  && forallb (fun h => s1_stmts false (h_body h)) (p_handlers P).
 
 (* ---------- diagnosis: a short reason symbol for a rejected program ---------- *)
 Definition expr_kind (e : expr) : string :=
@@ -686,7 +734,16 @@ Definition why_program (P : program) : string :=
           | None => ("func/" ++ why_stmts 1000 (p_funcs P) (Some (fn_ret fd)) false G0 (fn_body fd))%string
           | Some _ => "func-signature"%string
           end
-      | None => "handler"%string
+      | None =>
+          match find (fun h => negb (wt_handler (p_funcs P) g h)) (p_handlers P) with
+          | Some h =>
+              let G0 := [params_frame (h_params h); g] in
+              match wt_stmts (p_funcs P) (Some TNone) false G0 (h_body h) with
+              | None => ("on/" ++ why_stmts 1000 (p_funcs P) (Some TNone) false G0 (h_body h))%string
+              | Some _ => "on-signature"%string
+              end
+          | None => "handler"%string
+          end
       end
   | Some _ => "env"%string
   end.
@@ -696,7 +753,7 @@ Definition why_program (P : program) : string :=
 Definition wt_case (x : sx) : sx :=
   match dec_program x with
   | Some P =>
-      if wt_program P then Lst [Sym (s_ "wt"); sx_bool true; sx_bool (s1_program P)]
+      if wt_program P then Lst [Sym (s_ "wt"); sx_bool true; sx_bool (s2_program P); sx_bool (s1_program P)]
       else Lst [Sym (s_ "wt"); sx_bool false; Sym (s_ (why_program P))]
   | None => Sym (s_ "decode-error")
   end.
